@@ -299,10 +299,12 @@ func (e *Engine) compareTwins(step int, cmd *Cmd, rule string) {
 
 // outcomeDiff compares the normalised outcomes of the same command on two SDKs.
 func outcomeDiff(cmd *Cmd, a, b Outcome) string {
-	if cmd.Op == "Bad" {
-		// malformed by construction: outside "requests both SDKs accept as
-		// well-formed" (the SDK v1 request validators run first); only
-		// rejected-versus-accepted is compared
+	if cmd.Op == "Bad" && (a.Class == "internal-server" || a.Class == "forced" || b.Class == "internal-server" || b.Class == "forced" || cmd.Bad == "key-missing" || cmd.Bad == "key-type") {
+		// a malformed request while a failure is emulated, or a malformed key
+		// (possibly on a missing table): the SDK v1 request validators run
+		// before the client is entered, so which of two errors wins differs
+		// legitimately ("requests both SDKs accept as
+		// well-formed" is the scope): only rejected-versus-accepted is compared
 		if a.OK() != b.OK() {
 			return fmt.Sprintf("class %s vs %s", a.Class, b.Class)
 		}
@@ -420,6 +422,28 @@ func (e *Engine) exec1(step int, cmd *Cmd, twin bool) {
 	var mt *MTable
 	if cmd.T != "" {
 		mt = mc.Tables[cmd.T]
+	}
+	if len(cmd.NeedN) > 0 {
+		// attribute-to-attribute comparisons stay inside the fragment only while
+		// the target holds numbers under every named attribute (a plan edited by
+		// the minimiser may have lost the write that established them)
+		k := cmd.Key
+		if cmd.Op == "Put" {
+			k = cmd.Item
+		}
+		ok := mt != nil && keyProblem(mt.Def.KeyAttrs(), k, false) == ""
+		if ok {
+			cur := mt.Items[KeyID(mt.Def, k)]
+			for _, a := range cmd.NeedN {
+				if v, has := cur[a]; !has || v.T != "N" {
+					ok = false
+				}
+			}
+		}
+		if !ok {
+			st.Skipped = true
+			return
+		}
 	}
 	var ws *walkState
 	if cmd.Op == "Open" {
@@ -739,6 +763,9 @@ func (e *Engine) page(ws *walkState, cmd *Cmd, ex Expect, got Outcome) []Fail {
 		match[it.Canon()] = true
 	}
 	for _, it := range got.Items {
+		if len(ws.open.Proj) > 0 {
+			break // projected items: only the walk-level rules apply
+		}
 		if !match[it.Canon()] {
 			add("C04.page", "returned %s, which is not a matching item of the table at this call", it.Canon())
 			break
@@ -792,12 +819,15 @@ func (e *Engine) page(ws *walkState, cmd *Cmd, ex Expect, got Outcome) []Fail {
 		if ws.full.Class == "ok" && !sameStrings(gotSeq, canonSeq(ws.full.Items)) {
 			add("C04.concat", "concatenation of %d page(s) %s differs from the unpaginated answer %s", ws.pages, brief(gotSeq), brief(canonSeq(ws.full.Items)))
 		}
-		if want := canonSorted(ex.Matching); !sameStrings(canonSorted(ws.items), want) {
+		if want := canonSorted(ex.Matching); len(ws.open.Proj) == 0 && !sameStrings(canonSorted(ws.items), want) {
 			add("C04.concat", "paginated result %s is not the matching set %s", brief(canonSorted(ws.items)), brief(want))
 		}
 		return fails
 	}
 	e.probe("walk-interfering-complete")
+	if len(ws.open.Proj) > 0 && !projHasKeys(ws.open.Proj, mt.Def) {
+		return fails // without the key attributes the returned items cannot be attributed
+	}
 	// stable items: matching at open, matching now, never touched in between
 	count := map[string]int{}
 	for _, it := range ws.items {
@@ -937,6 +967,19 @@ func (e *Engine) reachWrite(cmd *Cmd, mt *MTable, before Item) {
 			e.probe("c03-write-with-items-sharing-the-index-key")
 		}
 	}
+}
+
+func projHasKeys(proj []string, def TableDef) bool {
+	has := map[string]bool{}
+	for _, p := range proj {
+		has[p] = true
+	}
+	for _, k := range def.KeyAttrs() {
+		if !has[k.Name] {
+			return false
+		}
+	}
+	return true
 }
 
 // keyOfAny projects an item on the attribute names of a continuation key.
